@@ -4,6 +4,7 @@ import (
 	"fmt"
 	"go/token"
 	"go/types"
+	"os"
 	"sort"
 	"strings"
 
@@ -56,8 +57,11 @@ type mutSummary struct {
 }
 
 type mutAnalysis struct {
-	p    *an.Prog
-	sums map[*ssa.Function]*mutSummary
+	cells         map[cellKey]*fieldCell
+	tcells        map[types.Type][]*fieldCell
+	convertedInto map[types.Type]bool
+	p             *an.Prog
+	sums          map[*ssa.Function]*mutSummary
 	// justified drops a mutation event at its source (reviewed table entries).
 	justified func(fn *ssa.Function, what string) bool
 	sites     map[ssa.CallInstruction][]*ssa.Function
@@ -111,7 +115,10 @@ func (ma *mutAnalysis) internalOnly1(t types.Type) bool {
 	case *types.Struct:
 		for i := 0; i < x.NumFields(); i++ {
 			ft := x.Field(i).Type()
-			if _, basic := ft.Underlying().(*types.Basic); basic {
+			if b, basic := ft.Underlying().(*types.Basic); basic {
+				if b.Kind() == types.UnsafePointer {
+					return false // reflect.Value and the module types defined from it: points anywhere
+				}
 				continue
 			}
 			if !ma.internalOnly(ft) {
@@ -209,6 +216,105 @@ func (ma *mutAnalysis) targets(ci ssa.CallInstruction, unit map[*ssa.Function]bo
 
 var mutCache = map[*an.Prog]*mutAnalysis{}
 
+// fieldCell stands for "field f of any struct of this type" within one run of the analysis: the
+// analysis is field-sensitive for the module's struct types by type, so that a context object holding
+// both the bindings and the configuration, or a parser frame holding both a grammar entry and the list
+// being built, does not make the one look like the other.
+type fieldCell struct {
+	st   *types.Struct
+	f    int
+	name string
+}
+
+func (c *fieldCell) Name() string                  { return c.name }
+func (c *fieldCell) String() string                { return c.name }
+func (c *fieldCell) Type() types.Type              { return c.st.Field(c.f).Type() }
+func (c *fieldCell) Parent() *ssa.Function         { return nil }
+func (c *fieldCell) Referrers() *[]ssa.Instruction { return nil }
+func (c *fieldCell) Pos() token.Pos                { return c.st.Field(c.f).Pos() }
+
+type cellKey struct {
+	st *types.Struct
+	f  int
+}
+
+// cellOf: the cell of field f of struct type t (a module struct, named or not); nil for foreign structs.
+func (ma *mutAnalysis) cellOf(t types.Type, f int) *fieldCell {
+	if p, ok := t.Underlying().(*types.Pointer); ok {
+		t = p.Elem()
+	}
+	if n, ok := t.(*types.Named); ok {
+		if !an.IsModulePkg(n.Obj().Pkg()) {
+			return nil
+		}
+	}
+	st, ok := t.Underlying().(*types.Struct)
+	if !ok || f >= st.NumFields() {
+		return nil
+	}
+	if fp := st.Field(f).Pkg(); fp != nil && !an.IsModulePkg(fp) {
+		return nil
+	}
+	if ma.cells == nil {
+		ma.cells = map[cellKey]*fieldCell{}
+	}
+	k := cellKey{st, f}
+	if c := ma.cells[k]; c != nil {
+		return c
+	}
+	c := &fieldCell{st: st, f: f, name: an.TypeName(t) + "." + st.Field(f).Name()}
+	ma.cells[k] = c
+	return c
+}
+
+// typeCells: the cells of every module struct reachable from t by type structure (not through
+// interfaces: a value is bundled when it is converted to one).
+func (ma *mutAnalysis) typeCells(t types.Type) []*fieldCell {
+	if ma.tcells == nil {
+		ma.tcells = map[types.Type][]*fieldCell{}
+	}
+	if cs, ok := ma.tcells[t]; ok {
+		return cs
+	}
+	ma.tcells[t] = nil
+	var out []*fieldCell
+	seen := map[types.Type]bool{}
+	var walk func(t types.Type)
+	walk = func(t types.Type) {
+		if seen[t] {
+			return
+		}
+		seen[t] = true
+		switch u := t.Underlying().(type) {
+		case *types.Pointer:
+			walk(u.Elem())
+		case *types.Slice:
+			walk(u.Elem())
+		case *types.Array:
+			walk(u.Elem())
+		case *types.Map:
+			walk(u.Key())
+			walk(u.Elem())
+		case *types.Chan:
+			walk(u.Elem())
+		case *types.Tuple:
+			for i := 0; i < u.Len(); i++ {
+				walk(u.At(i).Type())
+			}
+		case *types.Struct:
+			for i := 0; i < u.NumFields(); i++ {
+				if c := ma.cellOf(t, i); c != nil {
+					out = append(out, c)
+				}
+				walk(u.Field(i).Type())
+			}
+		}
+	}
+	walk(t)
+	ma.tcells[t] = out
+	return out
+}
+
 func isRefType(t types.Type) bool {
 	switch u := t.Underlying().(type) {
 	case *types.Slice, *types.Map, *types.Pointer, *types.Interface, *types.Chan:
@@ -223,6 +329,13 @@ func isRefType(t types.Type) bool {
 		return isRefType(u.Elem())
 	case *types.Signature:
 		return false
+	case *types.Tuple:
+		// the results of a call: (value, error)
+		for i := 0; i < u.Len(); i++ {
+			if isRefType(u.At(i).Type()) {
+				return true
+			}
+		}
 	}
 	if n, ok := t.(*types.Named); ok && n.Obj().Pkg() != nil && n.Obj().Pkg().Path() == "reflect" && n.Obj().Name() == "Value" {
 		return true
@@ -292,6 +405,35 @@ func (ma *mutAnalysis) analyse(fn *ssa.Function, seeds map[ssa.Value]int, nested
 		}
 		return distInf
 	}
+	// b: the distance of a value where it leaves the field-sensitive view (an interface conversion, an
+	// argument of another function, a result): the least of its own and of the fields of the structs
+	// its type is made of.
+	b := func(v ssa.Value) int {
+		x := d(v)
+		if x == 0 {
+			return 0
+		}
+		m := distInf
+		for _, c := range ma.typeCells(v.Type()) {
+			if y, ok := dist[c]; ok && y < m {
+				m = y
+			}
+		}
+		if m < distInf {
+			// a struct value is as close as what its fields hold (one load from the cell); a pointer
+			// to it, or a container of it, is the storage the cell stands for
+			if _, isStruct := v.Type().Underlying().(*types.Struct); isStruct {
+				m--
+				if m < 0 {
+					m = 0
+				}
+			}
+			if m < x {
+				x = m
+			}
+		}
+		return x
+	}
 	changed := true
 	lower := func(v ssa.Value, x int) {
 		if v == nil || x >= distInf {
@@ -338,6 +480,9 @@ func (ma *mutAnalysis) analyse(fn *ssa.Function, seeds map[ssa.Value]int, nested
 		}
 		switch x := addr.(type) {
 		case *ssa.FieldAddr:
+			if c := ma.cellOf(x.X.Type(), x.Field); c != nil {
+				return c
+			}
 			return addrRoot(x.X, depth+1)
 		case *ssa.IndexAddr:
 			if _, isPtr := x.X.Type().Underlying().(*types.Pointer); isPtr {
@@ -366,25 +511,36 @@ func (ma *mutAnalysis) analyse(fn *ssa.Function, seeds map[ssa.Value]int, nested
 						lower(x, d(x.X))
 					}
 				case *ssa.MakeInterface:
-					lower(x, d(x.X))
+					lower(x, b(x.X))
 				case *ssa.ChangeInterface:
 					lower(x, d(x.X))
 				case *ssa.TypeAssert:
-					if moduleOnlyType(x.AssertedType) {
-						return // the caller cannot construct a value of an unexported module type: a successful assertion yields a module-made object
+					// An unexported module type is not exempt as such: the object is module-made, but it may
+					// wrap caller data - an iterator over the caller's slice, say - at the distance it was built
+					// with. Only a map/slice/pointer type of which the module makes every value itself (no
+					// conversion into it) is known to be storage of the module's own: a copy, distance >= 1.
+					if dx := d(x.X); dx == 0 && ma.moduleMadeStorage(x.AssertedType) {
+						lower(x, 1)
+					} else {
+						lower(x, dx)
 					}
-					lower(x, d(x.X))
 				case *ssa.Extract:
 					if isRefType(x.Type()) {
 						lower(x, d(x.Tuple))
 					}
 				case *ssa.FieldAddr:
 					lower(x, d(x.X)) // address into the same storage
+					if c := ma.cellOf(x.X.Type(), x.Field); c != nil {
+						lower(x, d(c)) // what was stored into this field of some struct of the type
+					}
 				case *ssa.IndexAddr:
 					lower(x, d(x.X))
 				case *ssa.Field:
 					if isRefType(x.Type()) {
 						lower(x, d(x.X)) // a struct value is the bundle of its fields
+						if c := ma.cellOf(x.X.Type(), x.Field); c != nil {
+							lower(x, load(d(c)))
+						}
 					}
 				case *ssa.Index:
 					if isRefType(x.Type()) {
@@ -444,8 +600,8 @@ func (ma *mutAnalysis) analyse(fn *ssa.Function, seeds map[ssa.Value]int, nested
 					args := an.Args(c)
 					minArg := distInf
 					for _, a := range args {
-						if d(a) < minArg {
-							minArg = d(a)
+						if b(a) < minArg {
+							minArg = b(a)
 						}
 					}
 					if minArg >= distInf {
@@ -472,7 +628,7 @@ func (ma *mutAnalysis) analyse(fn *ssa.Function, seeds map[ssa.Value]int, nested
 									continue
 								}
 								for i, a := range args {
-									if da := d(a); da < distInf && s.retFrom[i] != nil {
+									if da := b(a); da < distInf && s.retFrom[i] != nil {
 										lower(x, s.retFrom[i][da])
 									}
 								}
@@ -510,6 +666,22 @@ func (ma *mutAnalysis) analyse(fn *ssa.Function, seeds map[ssa.Value]int, nested
 							lower(x, minArg)
 						}
 					}
+				}
+			})
+		}
+	}
+	if dbg := os.Getenv("LV_MUTDEBUG"); dbg != "" {
+		for _, f := range unit {
+			if !strings.Contains(an.FuncName(f), dbg) {
+				continue
+			}
+			fmt.Fprintf(os.Stderr, "== distances in %s (unit of %s)\n", an.FuncName(f), an.FuncName(fn))
+			for _, par := range f.Params {
+				fmt.Fprintf(os.Stderr, "   param %s: %d\n", par.Name(), d(par))
+			}
+			an.EachInstr(f, func(in ssa.Instruction) {
+				if v, ok := in.(ssa.Value); ok && d(v) < distInf {
+					fmt.Fprintf(os.Stderr, "   %s = %s: %d\n", v.Name(), in.String(), d(v))
 				}
 			})
 		}
@@ -567,7 +739,7 @@ func (ma *mutAnalysis) analyse(fn *ssa.Function, seeds map[ssa.Value]int, nested
 				name := an.CallName(c)
 				args := an.Args(c)
 				for i, a := range args {
-					da := d(a)
+					da := b(a)
 					if da >= distInf {
 						continue
 					}
@@ -609,8 +781,8 @@ func (ma *mutAnalysis) analyse(fn *ssa.Function, seeds map[ssa.Value]int, nested
 	an.EachInstr(fn, func(in ssa.Instruction) {
 		if ret, ok := in.(*ssa.Return); ok {
 			for _, rv := range ret.Results {
-				if d(rv) < retDist {
-					retDist = d(rv)
+				if b(rv) < retDist {
+					retDist = b(rv)
 				}
 			}
 		}
@@ -675,6 +847,7 @@ func getMut(p *an.Prog) *mutAnalysis {
 		return m
 	}
 	ma := &mutAnalysis{p: p, sums: map[*ssa.Function]*mutSummary{}}
+	defer ma.debugInternal()
 	just, _ := an.LoadTables(verifDir())
 	roles := GetRoles(p)
 	ma.justified = func(fn *ssa.Function, what string) bool {
@@ -868,6 +1041,40 @@ func runM2(p *an.Prog, r *an.Result) {
 
 // moduleOnlyType: an unexported, module-declared, non-interface named type
 // (or a pointer to one).
+// moduleMadeStorage: t is an unexported module type whose values are maps, slices or pointers, and no
+// instruction of the module converts a value of another type into it: every value of the type is
+// storage the module allocated (make, a composite literal, new), which the caller can neither
+// construct nor have converted.
+func (ma *mutAnalysis) moduleMadeStorage(t types.Type) bool {
+	if !moduleOnlyType(t) {
+		return false
+	}
+	switch t.Underlying().(type) {
+	case *types.Map, *types.Slice, *types.Pointer:
+	default:
+		return false
+	}
+	if ma.convertedInto == nil {
+		ma.convertedInto = map[types.Type]bool{}
+		for _, f := range ma.p.Funcs {
+			an.EachInstr(f, func(in ssa.Instruction) {
+				switch x := in.(type) {
+				case *ssa.ChangeType:
+					ma.convertedInto[x.Type()] = true
+				case *ssa.Convert:
+					ma.convertedInto[x.Type()] = true
+				}
+			})
+		}
+	}
+	for ct := range ma.convertedInto {
+		if types.Identical(ct, t) {
+			return false
+		}
+	}
+	return true
+}
+
 func moduleOnlyType(t types.Type) bool {
 	if p, ok := t.(*types.Pointer); ok {
 		t = p.Elem()
@@ -877,4 +1084,22 @@ func moduleOnlyType(t types.Type) bool {
 		return false
 	}
 	return an.IsModulePkg(n.Obj().Pkg()) && !n.Obj().Exported()
+}
+
+// debugInternal prints, for LV_INTDEBUG=<type substring>, why a type is not internal-only.
+func (ma *mutAnalysis) debugInternal() {
+	want := os.Getenv("LV_INTDEBUG")
+	if want == "" {
+		return
+	}
+	for _, n := range moduleNamedTypes(ma.p) {
+		if strings.Contains(n.String(), want) {
+			fmt.Fprintf(os.Stderr, "internalOnly(%s) = %v\n", n, ma.internalOnly(n))
+			if st, ok := n.Underlying().(*types.Struct); ok {
+				for i := 0; i < st.NumFields(); i++ {
+					fmt.Fprintf(os.Stderr, "    .%s %s = %v\n", st.Field(i).Name(), st.Field(i).Type(), ma.internalOnly(st.Field(i).Type()))
+				}
+			}
+		}
+	}
 }
